@@ -10,7 +10,7 @@ MANIFEST = dict(
     note="Trusted: Coq kernel, extraction, harness sgv-gate (typed dump of the deserialised Config, globset/regex compilation bits), python generators. TOML syntax/type errors are predicted by the real toml deserialiser (oracle), not modelled. Absence of panics/timeouts of the Rust code is observed on the generated inputs in both build profiles, not proved.",
     ref="5 (C17)")
 
-CLASSES = ["K17_rule_warn_threshold", "K17_expires", "K17_cli_after_validation", "K17_overflow", "K17_dormant_glob"]
+CLASSES = ["K17_rule_warn_threshold", "K17_expires", "K17_cli_after_validation", "K17_overflow", "K17_dormant_glob", "K17_lenient_date"]
 
 
 # --------------------------------------------------------------------------- diagnostics
@@ -135,6 +135,8 @@ def cli_case(sgcli, sgcli_rel, case, with_snapshot=False):
                 cmds["stats"] = ["--color", "never", "stats", "summary", "--no-sloc-cache"]
             if with_snapshot:
                 cmds["snapshot"] = ["--color", "never", "snapshot", "--force", "--no-sloc-cache"]
+            if prof in case.get("with_files", "") and not argv:
+                cmds["files"] = ["--color", "never", "check", "--no-sloc-cache", "--files", "src/a.rs"]
             for name, a in cmds.items():
                 rc, so, se = sb.run(exe, a, env=env, timeout=30)
                 r[name] = (rc, (se + "\n" + so)[-1500:])
@@ -361,7 +363,7 @@ def run(ctx):
                      "muts": case.get("muts"), "detail": extra, "dirs": case.get("dirs"), "files": case.get("files")})
 
     # ---- behaviour probes vs the switches the model is instantiated with
-    for k in ("rule_wt", "expires", "count_exclude"):
+    for k in ("rule_wt", "expires", "count_exclude", "strict_dates"):
         if k in probes and probes[k] != behav[k]:
             what = ("the built crate %s what known_findings/C17.json says about %s" %
                     ("no longer does" if behav[k] else "already does", k))
@@ -382,7 +384,8 @@ def run(ctx):
     for argv in flag_cases():
         for bn in ("empty", "rich"):
             flagdocs.append({"tag": "flag-class", "toml": render(bases[bn]), "argv": argv, "muts": ["flags:" + " ".join(argv)], "base": bn})
-    cases = table_cases + corpus + flagdocs + gen
+    longglobs = long_glob_cases(quick)
+    cases = table_cases + corpus + flagdocs + longglobs + gen
     errs = evaluate(bins, model, behav, cases)
 
     # ---- library-level correspondence + spec oracle on the library verdicts
@@ -416,7 +419,7 @@ def run(ctx):
                     known_or_violation(k, "accepted outside the documented domain (library level)", c)
 
     # ---- CLI subset: tables, corpus, flag classes, and a stratified sample of the generated documents
-    cli_budget = 85 if quick else 4000
+    cli_budget = 55 if quick else 4000
     by_kind = {}
     for c in gen:
         m = c["m"]
@@ -437,7 +440,10 @@ def run(ctx):
     for v in (90, 213503982334601, 213503982334602, 999999999999999999):
         age_cases.append({"tag": "retention", "toml": "[trend]\nmax_age_days = %d\n" % v, "argv": [], "muts": ["max_age_days=%d" % v], "snapshot": True, "age": v})
     evaluate(bins, model, behav, age_cases + ext_cases)
-    cli_cases = table_cases + ext_cases + corpus + age_cases + picked + flag_cli
+    # `check --files` builds the same context: it must refuse exactly what config validate refuses
+    for c in corpus + picked:
+        c["with_files"] = "DR" if not quick else "D"
+    cli_cases = table_cases + ext_cases + corpus + age_cases + picked + flag_cli + longglobs
     cli_res = run_cli_cases(cli_cases, sgcli, sgcli_rel)
     spawns = 0
     cli_ok = 0
@@ -466,10 +472,10 @@ def run(ctx):
                     continue
                 if not m:
                     continue
-                mo = m[prof][{"check": "check", "validate": "validate", "show": "show", "stats": "show"}[cmd]]
+                mo = m[prof][{"check": "check", "files": "check", "validate": "validate", "show": "show", "stats": "show"}[cmd]]
                 if cmd == "check" and h and not h["clap_ok"]:
                     mo = "R:Clap:0:0"
-                iv = verdict_of_exit(cmd, rc)
+                iv = verdict_of_exit("check" if cmd == "files" else cmd, rc)
                 mt = split_out(mo)[0]
                 want = {"A": "A", "R": "R", "C": "X101"}[mt]
                 if iv != want:
@@ -492,6 +498,13 @@ def run(ctx):
                 vv = verdict_of_exit("validate", res[prof]["validate"][0])
                 if vc in ("A", "R") and vv in ("A", "R") and vc != vv:
                     known_or_violation("K17_validate_vs_check", "config validate exit %d, check exit %d" % (res[prof]["validate"][0], res[prof]["check"][0]), c)
+            if not c["argv"] and "validate" in res[prof] and "files" in res[prof]:
+                vf = verdict_of_exit("check", res[prof]["files"][0])
+                vv = verdict_of_exit("validate", res[prof]["validate"][0])
+                if vf in ("A", "R") and vv in ("A", "R") and vf != vv:
+                    viol.append({"kind": "property-oracle", "class": None, "what": "check --files exits %d where config validate exits %d: the restricted run "
+                                 "does not refuse what the gate refuses" % (res[prof]["files"][0], res[prof]["validate"][0]), "toml": c["toml"], "argv": [],
+                                 "muts": c.get("muts"), "profile": prof})
             # O2: accepted by the real check although outside the documented domain
             if m and h and h["parse"] and h["clap_ok"] and verdict_of_exit("check", res[prof]["check"][0]) == "A" and m["lib"]["dom"] == "0":
                 ks = [k for k in m["lib"]["known"].split(",") if k != "-"]
@@ -611,6 +624,10 @@ def run(ctx):
                     known_or_violation("K17_overflow", "%s: %s" % (" ".join(argv), bad), {"toml": "", "argv": argv})
                 else:
                     viol.append({"kind": "property-oracle", "class": None, "what": "%s build, %s: %s" % (prof, " ".join(argv), bad), "toml": "", "argv": argv, "output": text[-500:]})
+            if exp == "ERR" and rc == 0:
+                # an invalid duration on the command line is ignored with a warning instead of exit 2 (pinned by an existing test)
+                known_or_violation("K17_since_fallback", "%s: exit 0 (warning, falls back to the latest entry) on an invalid duration" % " ".join(argv),
+                                   {"toml": "", "argv": argv, "muts": ["--since value class"]}, text[-300:])
             if exp is not None:
                 got = "PANIC" if rc == 101 else ("ERR" if ("Invalid --since duration" in text or "Invalid trend_since duration" in text) else ("OK" if rc == 0 else "EXIT%d" % rc))
                 if got != exp:
@@ -696,7 +713,7 @@ def xcheck(ctx, cases, behav, k):
     cand = [c for c in cases if c["h"] and c["h"]["parse"] and c["h"]["clap_ok"] and len(c["h"]["CFG"]) < 900]
     ctx.rng.shuffle(cand)
     pick = cand[:k]
-    bh = "{| b_rule_wt := %s; b_expires := %s; b_revalidate_cli := %s; b_validate_builds := %s; b_dur_checked := %s; b_count_exclude := %s |}" % \
+    bh = "{| b_rule_wt := %s; b_expires := %s; b_revalidate_cli := %s; b_validate_builds := %s; b_dur_checked := %s; b_count_exclude := %s; b_strict_dates := %s |}" % \
          tuple(cb(behav[x]) for x in BEHAV_KEYS)
     exprs = []
     for c in pick:
